@@ -77,6 +77,10 @@ type callPlan struct {
 	Dst     int  `json:"dst"`
 	Hole    int  `json:"black_hole,omitempty"`  // > 0: the call addresses black hole #Hole instead of node Dst
 	Unreach bool `json:"unreachable,omitempty"` // the call addresses a peer ID nobody knows an address of
+	// the call is Connection.Broadcast (MessageProtocol.Broadcast) issued by node Src: one request per connected peer of Src
+	// (bcast_test.go); Dst is unused. CancelFirst: its context is cancelled before the call starts.
+	Bcast       bool `json:"broadcast,omitempty"`
+	CancelFirst bool `json:"cancelled_before_call,omitempty"`
 	// > 0: the call sends the byte-identical payload (and procedure) of every other call of the same group, and all
 	// calls of the group are fired together within one wall-clock second (twins_test.go)
 	Twin     int       `json:"identical_payload_group,omitempty"`
@@ -101,7 +105,13 @@ type workload struct {
 	Unsol     []unsolPlan `json:"unsolicited,omitempty"`
 	Force     bool        `json:"force,omitempty"` // directed reproduction: do not avoid known triggers
 	Storm     bool        `json:"storm,omitempty"` // late-response-storm class (storm_test.go): liveness probe afterwards
-	dupsLate  bool        // known duplicate-deadlock: duplicates are sent only after the call returned
+	// broadcast class (bcast_test.go): private cluster per case - node 0 (hub) connected to Star peers (nodes 1..Star) that
+	// are not connected among themselves; Peers[n] = how node n serves the requests of a Broadcast; Disturb = peers that
+	// stop / are disconnected by the hub while the calls run
+	Star     int           `json:"star_peers,omitempty"`
+	Peers    []peerPlan    `json:"peers,omitempty"`
+	Disturb  []disturbPlan `json:"disturb,omitempty"`
+	dupsLate bool          // known duplicate-deadlock: duplicates are sent only after the call returned
 }
 
 // ---- per-case state fed by handler, schedule points and logger ----
@@ -162,6 +172,11 @@ type callState struct {
 	// group's in-flight counter
 	firstSendSec int64
 	twinInFlight bool
+	// Broadcast call (bcast_test.go): its result, the connected peers of the caller just before the call, handler
+	// invocations per responder node
+	berr   error
+	bPeers int
+	bRuns  map[int]int
 }
 
 type caseState struct {
@@ -184,13 +199,13 @@ type caseState struct {
 	misrte     atomic.Int64
 	closing    chan struct{}
 	holes      []*blackHole
-	holeOut    [maxConns]atomic.Int32 // calls to black holes outstanding per requester node
-	holeStarts [maxConns]atomic.Int32 // ... started so far
+	holeOut    [maxNodes]atomic.Int32 // calls to black holes outstanding per requester node
+	holeStarts [maxNodes]atomic.Int32 // ... started so far
 	maxStreak  atomic.Int32           // longest run of failed resMu probes while such a call was outstanding
 	bg         atomic.Int32           // background senders (duplicates, unsolicited) still running; a plain counter: late handler runs may add while afterQuiescence waits
 	lastBeat   atomic.Int64           // process heartbeat at the last event (touch)
-	nodeIn     [maxConns]atomic.Int32 // calls in flight per requester node
-	wantLock   [maxConns]atomic.Int32 // per requester node: calls that are about to take resMu (call about to start / timer fired, until the next after-send or the return)
+	nodeIn     [maxNodes]atomic.Int32 // calls in flight per requester node
+	wantLock   [maxNodes]atomic.Int32 // per requester node: calls that are about to take resMu (call about to start / timer fired, until the next after-send or the return)
 	nProbes    int                    // storm class: calls appended to cs.calls for the liveness probe
 	// Message IDs are not assumed to be unique per request (an engine may derive them from anything): every attempt that
 	// passed after-send with an ID is an "owner" of that ID; found/unknown events are counted per ID.
@@ -203,6 +218,11 @@ type caseState struct {
 	invByID map[string][]*invRec
 	invCnt  map[[2]int]int // (group, responder node) -> handler invocations so far
 	subCnt  map[[3]int]int // (group, requester node, responder node) -> handler invocations so far
+	// Broadcast calls (bcast_test.go): handler invocations per message ID, goroutines that executed a Broadcast call,
+	// probe pairs (requester, responder) of the liveness probe
+	bInv   map[string][]*bRec
+	bGids  map[int64]bool
+	probes [][2]int
 }
 
 // idEvents: what onResponse did with the responses carrying one message ID.
@@ -591,6 +611,10 @@ func handle(node int, w p2p.ResponseWriter, req *p2p.Request) {
 		cs.handleTwin(node, parts[2], w, req)
 		return
 	}
+	if strings.HasPrefix(parts[2], "b") {
+		cs.handleBcast(node, parts[2], w, req)
+		return
+	}
 	ci, err := strconv.Atoi(parts[2])
 	if err != nil || ci < 0 || ci >= len(cs.calls) {
 		w.Write([]byte("stale"))
@@ -710,7 +734,8 @@ type verdict struct {
 	// other-error results of calls whose context had been cancelled (libp2p reports a cancellation during stream
 	// negotiation as "i/o deadline reached")
 	otherCancelledN int
-	tw              twinStats // identical-payload groups (twins_test.go)
+	tw              twinStats  // identical-payload groups (twins_test.go)
+	bc              bcastStats // Broadcast calls (bcast_test.go)
 }
 
 func (v *verdict) add(sig, format string, a ...any) {
@@ -725,7 +750,13 @@ func (a *attState) describe() string {
 func (c *callState) describe() string {
 	var sb strings.Builder
 	fmt.Fprintf(&sb, "call %d %d->%d cancelPlanned=%v cancelled=%v returned=%v handlerRuns=%d", c.idx, c.plan.Src, c.plan.Dst, c.plan.Cancel, c.cancelled, c.returned, c.handlerN)
-	if c.returned {
+	if c.plan.Bcast {
+		fmt.Fprintf(&sb, " BROADCAST(connected peers before the call=%d cancelledBeforeCall=%v handler runs per node=%v", c.bPeers, c.plan.CancelFirst, c.bRuns)
+		if c.returned {
+			fmt.Fprintf(&sb, " returned err=%v", c.berr)
+		}
+		sb.WriteString(")")
+	} else if c.returned {
 		fmt.Fprintf(&sb, " result(data=%q err=%v)", string(c.resp.Data()), c.resp.Error())
 	}
 	for _, a := range c.atts {
@@ -818,11 +849,23 @@ func runCase(w *workload) (*verdict, error) {
 	sanitize(w)
 	var cl *cluster
 	var err error
-	for try := 0; try < 4; try++ {
-		if cl, err = currentCluster(); err == nil {
-			break
+	if w.Star > 0 { // broadcast class: a private star-shaped cluster per case (peers stop / are disconnected in it)
+		for try := 0; try < 3; try++ {
+			if cl, err = newStar(w.Star); err == nil {
+				break
+			}
+			cl.stop()
 		}
-		dropCluster()
+		if err == nil {
+			defer cl.stop()
+		}
+	} else {
+		for try := 0; try < 4; try++ {
+			if cl, err = currentCluster(); err == nil {
+				break
+			}
+			dropCluster()
+		}
 	}
 	if err != nil {
 		// Loopback hosts could not be started/connected (seen only with the machine oversubscribed ~20x: TLS dials
@@ -832,17 +875,25 @@ func runCase(w *workload) (*verdict, error) {
 	}
 	T := time.Duration(w.TimeoutMs) * time.Millisecond
 	cs := &caseState{no: caseNo.Add(1), w: w, cl: cl, T: T, byGid: map[int64]*callState{}, byID: map[string]*attState{},
-		lastFnd: map[int]*attState{}, closing: make(chan struct{}), owners: map[string][]*attState{}, idEv: map[string]*idEvents{}}
+		lastFnd: map[int]*attState{}, closing: make(chan struct{}), owners: map[string][]*attState{}, idEv: map[string]*idEvents{},
+		bInv: map[string][]*bRec{}, bGids: map[int64]bool{}}
 	for i, p := range w.Calls {
-		cs.calls = append(cs.calls, &callState{idx: i, plan: p, payload: payloadOf(cs.no, i), cancelCh: make(chan struct{}), done: make(chan struct{})})
+		c := &callState{idx: i, plan: p, payload: payloadOf(cs.no, i), cancelCh: make(chan struct{}), done: make(chan struct{})}
+		if p.Bcast {
+			c.payload, c.bRuns = bcastPayload(cs.no, i), map[int]int{}
+		}
+		cs.calls = append(cs.calls, c)
 	}
 	cs.initTwins()
-	if w.Storm { // liveness probe after the storm: one fresh fast call per node, created now (the handler indexes cs.calls)
-		for n := 0; n < 3*w.NConn; n++ { // up to three tries per node
-			i := len(cs.calls)
-			p := callPlan{Src: n % w.NConn, Dst: (n + 1) % w.NConn, Att: []attPlan{fastAtt(), fastAtt(), fastAtt(), fastAtt()}}
-			cs.calls = append(cs.calls, &callState{idx: i, plan: p, payload: payloadOf(cs.no, i), cancelCh: make(chan struct{}), done: make(chan struct{})})
-			cs.nProbes++
+	if w.Storm || w.Star > 0 { // liveness probe afterwards: one fresh fast call per probe pair, created now (the handler indexes cs.calls)
+		cs.probes = probePairs(w)
+		for try := 0; try < 3; try++ { // up to three tries per pair
+			for _, pr := range cs.probes {
+				i := len(cs.calls)
+				p := callPlan{Src: pr[0], Dst: pr[1], Att: []attPlan{fastAtt(), fastAtt(), fastAtt(), fastAtt()}}
+				cs.calls = append(cs.calls, &callState{idx: i, plan: p, payload: payloadOf(cs.no, i), cancelCh: make(chan struct{}), done: make(chan struct{})})
+				cs.nProbes++
+			}
 		}
 	}
 	cs.touch()
@@ -891,13 +942,21 @@ func runCase(w *workload) (*verdict, error) {
 			cs.raw(u.From, u.To, fmt.Sprintf("unsolicited-%d-%d", cs.no, i), "tok|unsolicited|x", false)
 		}(i, u)
 	}
+	for _, d := range w.Disturb {
+		cs.bg.Add(1)
+		go func(d disturbPlan) {
+			defer cs.bg.Add(-1)
+			<-start
+			cs.disturb(d)
+		}(d)
+	}
 	close(start)
 	allDone := make(chan struct{})
 	go func() { wg.Wait(); close(allDone) }()
 
 	finished := cs.await(allDone, v, t0)
 	tMain := time.Since(t0)
-	if finished && w.Storm && len(v.viol) == 0 {
+	if finished && (w.Storm || w.Star > 0) && len(v.viol) == 0 {
 		cs.probeLiveness(v)
 	}
 	tProbe := time.Since(t0) - tMain
@@ -935,7 +994,9 @@ func (cs *caseState) runCall(g int64, c *callState) {
 	sleepUs(c.plan.PreUs)
 	cs.twinArrive(c) // identical-payload group: all of its calls go together, within one wall-clock second
 	var tm *time.Timer
-	if c.plan.Cancel {
+	if c.plan.CancelFirst {
+		cs.cancelCall(c)
+	} else if c.plan.Cancel {
 		tm = time.AfterFunc(time.Duration(c.plan.CancelUs)*time.Microsecond, func() { cs.cancelCall(c) })
 	}
 	n := cs.inCalls.Add(1)
@@ -960,9 +1021,19 @@ func (cs *caseState) runCall(g int64, c *callState) {
 	cs.nodeIn[c.plan.Src].Add(1)
 	cs.setWant(c, true) // next thing this goroutine does to the layer: resMu.Lock to register its pending entry
 	tc := time.Now()
-	resp := cl.conns[c.plan.Src].RequestFrom(ctx, target, proc, []byte(c.payload))
+	var resp p2p.Response
+	var berr error
+	if c.plan.Bcast {
+		np := len(cl.conns[c.plan.Src].ConnectedPeers())
+		cs.mu.Lock()
+		cs.bGids[g], c.bPeers = true, np
+		cs.mu.Unlock()
+		berr = cl.conns[c.plan.Src].Broadcast(ctx, proc, []byte(c.payload))
+	} else {
+		resp = cl.conns[c.plan.Src].RequestFrom(ctx, target, proc, []byte(c.payload))
+	}
 	if d := time.Since(tc); d > 500*time.Millisecond && os.Getenv("VERIF_C17_TRACE") != "" {
-		fmt.Fprintf(os.Stderr, "  c17 slow call %d (%v): unreachable=%v hole=%d cancel=%v err=%v\n", c.idx, d.Round(time.Millisecond), c.plan.Unreach, c.plan.Hole, c.plan.Cancel, resp.Error())
+		fmt.Fprintf(os.Stderr, "  c17 slow call %d (%v): broadcast=%v unreachable=%v hole=%d cancel=%v err=%v/%v\n", c.idx, d.Round(time.Millisecond), c.plan.Bcast, c.plan.Unreach, c.plan.Hole, c.plan.Cancel, resp.Error(), berr)
 	}
 	cs.setWant(c, false)
 	cs.nodeIn[c.plan.Src].Add(-1)
@@ -977,7 +1048,7 @@ func (cs *caseState) runCall(g int64, c *callState) {
 	}
 	cs.twinReturned(c)
 	cs.mu.Lock()
-	c.resp = resp
+	c.resp, c.berr = resp, berr
 	c.returned = true
 	c.stallsStart, c.stallsEnd, c.sawHole = s0, s1, saw
 	delete(cs.byGid, g)
@@ -1116,13 +1187,16 @@ func (cs *caseState) afterQuiescence(v *verdict) {
 		time.Sleep(2 * time.Millisecond)
 	}
 	// All callers are gone: a goroutine still parked in onResponse's channel send can never be received from.
-	if parked := parkedInOnResponse(dumpGoroutines()); len(parked) > 0 {
+	gs := dumpGoroutines()
+	if parked := parkedInOnResponse(gs); len(parked) > 0 {
 		if p2 := persistentlyParked(300 * time.Millisecond); len(p2) > 0 {
 			markParked(p2)
 			cs.cl.wedged = true
 			v.add("stuck:onResponse-send-no-waiter", "%d goroutine(s) parked in onResponse channel send after all calls returned\n%s", len(p2), stackExcerpt(p2, 2))
 		}
 	}
+	// Every Broadcast call has returned: nothing it started may stay behind.
+	cs.bcastLeftovers(v, gs)
 }
 
 func (cs *caseState) evaluate(v *verdict, finished bool) {
@@ -1179,6 +1253,10 @@ func (cs *caseState) evaluate(v *verdict, finished bool) {
 			if a.foundEarly && a.timeoutFired && (a.plan.Dir == dirHoldEarly || a.plan.Dir == dirNone || a.plan.Dir == dirSleepSend) {
 				v.suspects++
 			}
+		}
+		if c.plan.Bcast {
+			cs.judgeBcast(v, c, maxRuns)
+			continue
 		}
 		if c.handlerN > maxRuns {
 			v.add("retry-budget:handler-runs", "handler ran %d times for one call (max %d): %s", c.handlerN, maxRuns, c.describe())
@@ -1384,6 +1462,18 @@ func summarize(w *workload, v *verdict) map[string]any {
 		m["late_replies_unknown_id"], m["late_replies_while_other_requests_in_flight"], m["late_replies_held_until_request_registers"] = v.lateN, v.lateConc, v.heldReg
 		m["unreachable_peer_calls"], m["liveness_probes"], m["liveness_probes_ok"] = v.unreachN, v.probeN, v.probeOK
 	}
+	if w.Star > 0 {
+		m["star_peers"], m["peers"], m["disturb"], m["failing_peers_planned"] = w.Star, w.Peers[1:], w.Disturb, failingPeers(w)
+		m["broadcast_calls"], m["broadcast_nil"], m["broadcast_timeout"], m["broadcast_cancelled"], m["broadcast_other_error"] = v.bc.calls, v.bc.okN, v.bc.timeoutN, v.bc.cancelN, v.bc.otherN
+		m["broadcast_attempts"], m["broadcast_attempts_timed_out"], m["broadcast_handler_runs"] = v.bc.attempts, v.bc.attTimeouts, v.bc.runs
+		m["liveness_probes"], m["liveness_probes_ok"] = v.probeN, v.probeOK
+		for _, c := range w.Calls {
+			if c.Bcast {
+				m["first_broadcast_call"] = c
+				break
+			}
+		}
+	}
 	if v.tw.groups > 0 {
 		m["identical_payload_groups"], m["identical_payload_calls"] = v.tw.groups, v.tw.calls
 		m["identical_payload_groups_to_different_peers"], m["identical_payload_groups_same_peer_repeated"] = v.tw.diffPeers, v.tw.samePeer
@@ -1414,6 +1504,9 @@ func record(t fataler, kind string, w *workload, v *verdict) (knownHit bool) {
 	}
 	if w.Storm { // late-response storm: a late reply took the unknown-ID branch while other requests of its node were in flight
 		nontrivial = v.maxOver >= 8 && v.lateConc > 0
+	}
+	if w.Star > 0 { // broadcast class, see bcastLabels
+		nontrivial = bcastNontrivial(v)
 	}
 	labels := []string{kind, fmt.Sprintf("conns=%d", w.NConn)}
 	if v.maxOver >= 8 {
@@ -1501,6 +1594,8 @@ func record(t fataler, kind string, w *workload, v *verdict) (knownHit bool) {
 		evid.R.Label("storm:unreachable-peer-calls", int64(v.unreachN))
 		evid.R.Label("storm:liveness-probes", int64(v.probeN))
 		evid.R.Label("storm:liveness-probes-served", int64(v.probeOK))
+	} else if w.Star > 0 {
+		labels = append(labels, bcastLabels(w, v)...)
 	} else {
 		labels = append(labels, "class:race-steering")
 	}
@@ -1526,6 +1621,9 @@ func record(t fataler, kind string, w *workload, v *verdict) (knownHit bool) {
 		evid.R.Inconclusive("%s", s)
 	}
 	for _, e := range v.otherErrs {
+		if w.Star > 0 { // peers of this class stop on purpose: one label per kind of error, not per peer ID
+			e = peerIDRe.ReplaceAllString(e, "<peer>")
+		}
 		if len(e) > 60 {
 			e = e[:60]
 		}
